@@ -105,11 +105,11 @@ func refICMP(f []byte) bool {
 // program evaluation: x/net/bpf VM and the running kernel
 
 type evaluator struct {
-	vm       *bpf.VM
-	fds      [2]int
-	hasKern  bool
-	nVM, nK  int
-	rcv      []byte
+	vm      *bpf.VM
+	fds     [2]int
+	hasKern bool
+	nVM, nK int
+	rcv     []byte
 }
 
 func newEvaluator(raw []bpf.RawInstruction, kernel bool) (*evaluator, error) {
